@@ -237,7 +237,17 @@ pub fn run_read(args: &[Sx]) -> Sx {
         with_type!(args[0].atom(), read_both, prefix(&args[1]), &data, &plan(&args[3]), emit);
     })
 }
-fn write_one<T: Rec>(r: T, w: &mut Writer<&mut Vec<u8>>) {
+/// a sink that accepts at most `cap` bytes per write call (legal behaviour of any Write)
+struct ShortSink<'a> { out: &'a mut Vec<u8>, cap: usize }
+impl<'a> std::io::Write for ShortSink<'a> {
+    fn write(&mut self, buf: &[u8]) -> std::io::Result<usize> {
+        let n = buf.len().min(self.cap.max(1));
+        self.out.extend_from_slice(&buf[..n]);
+        Ok(n)
+    }
+    fn flush(&mut self) -> std::io::Result<()> { Ok(()) }
+}
+fn write_one<T: Rec>(r: T, w: &mut Writer<ShortSink>) {
     w.write_record(&r).expect("write_record failed");
 }
 pub fn run_wr(args: &[Sx]) -> Sx {
@@ -246,7 +256,9 @@ pub fn run_wr(args: &[Sx]) -> Sx {
         let mut lines: Vec<Vec<u8>> = Vec::new();
         for r in args[2].tagged("recs") {
             let mut buf = Vec::new();
-            { let mut w = Writer::new(&mut buf); with_record!(t, r, write_one, &mut w); }
+            // the sink accepts as many bytes per call as the first entry of the fragmentation plan (all if the plan is empty)
+            let cap = plan(&args[4]).first().copied().unwrap_or(usize::MAX);
+            { let mut w = Writer::new(ShortSink { out: &mut buf, cap }); with_record!(t, r, write_one, &mut w); }
             lines.push(buf);
         }
         emit(Sx::L(vec![a("txt"), hex(&lines.concat())]));
